@@ -381,6 +381,39 @@ func checkC10(c *Ctx) {
 			})
 	}
 
+	// 4b. a single-address entry denotes exactly that address.  A mask suffix appended to the entry's
+	//     own text is only right when the text is in the family the suffix belongs to: "/32" after an
+	//     IPv4-mapped literal ("::ffff:10.0.0.1", which To4() accepts) is an IPv6 prefix of 32 bits —
+	//     the entry becomes ::/32, denies nothing it was meant to and, in an allow list, admits ::1.
+	nSuffix := 0
+	for _, fn := range p.Funcs {
+		pk := fnPkg(fn)
+		if pk == nil || !strings.HasSuffix(pk.Pkg.Path(), "/internal/adminapi") {
+			continue
+		}
+		instrsOf(fn, func(in ssa.Instruction) {
+			b, ok := in.(*ssa.BinOp)
+			if !ok || b.Op != token.ADD {
+				return
+			}
+			suffix, isK := constStr(b.Y)
+			if !isK || suffix != "/32" {
+				return
+			}
+			nSuffix++
+			text := stripConv(b.X)
+			okText := false
+			if call, isCall := text.(*ssa.Call); isCall && CalleeName(call) == "(net.IP).String" {
+				okText = true // the 4-byte form printed by the library is dotted-quad
+			}
+			c.Check(okText, "single-address-entry-exact", p.FuncKey(fn)+"/v4-suffix", p.InstrPos(b), "the /32 suffix is appended to the printed 4-byte form of the address",
+				"\"/32\" is appended to "+p.Desc(text, nil)+", the entry as written: an IPv4-mapped literal (::ffff:a.b.c.d) passes the To4() test but is IPv6 syntax, so the entry becomes the network ::/32 — a deny entry no longer matches its address and an allow entry admits ::1 and every other address below ::/32")
+		})
+	}
+	if nSuffix == 0 {
+		c.Pass("single-address-entry-exact", "adminapi/v4-suffix", "-", "no mask suffix is appended to entry text (single addresses are turned into exact networks another way)")
+	}
+
 	// 5. no fail-open
 	sp := c.handlerSpec("IPAllowList", "IPDenyList", "NewIPFilter")
 	c.traceRule("filter-fails-closed", "adminapi.NewMux", nm, sp,
@@ -807,6 +840,7 @@ func checkC11(c *Ctx) {
 			"only the first backend with the name is removed and AddBackend accepts duplicate names: add(x), add(x), remove(x) leaves a backend named x listed and receiving traffic")
 	}
 	c11OwnMachinery(c)
+	c.backendAddressUsable()
 	// 5. admin handlers
 	nm := p.Fn("internal/adminapi", "", "NewMux")
 	if nm == nil {
@@ -1004,4 +1038,53 @@ func c11OwnMachinery(c *Ctx) {
 		})
 	}
 	c.Floor(rule, n, 2, "stores to Backend.URL / Backend.ReverseProxy")
+}
+
+// backendAddressUsable: an address that cannot be proxied to is a failed operation, not a registered
+// backend.  url.Parse accepts almost anything ("localhost:8081" is scheme "localhost", opaque "8081";
+// "not a url" is a relative path): every path of AddBackend that registers a backend has therefore
+// found the parsed URL's scheme to be http or https and its host non-empty.  Otherwise the backend is
+// listed healthy, every request routed to it is answered 502, and a configuration file with such an
+// address starts a proxy that cannot work instead of failing with a clear error (C11, C18).
+func (c *Ctx) backendAddressUsable() {
+	p := c.P
+	ab := p.Fn("internal/loadbalancer", "LoadBalancer", "AddBackend")
+	sp := &Spec{
+		Event: func(in ssa.Instruction, fr *Frame) string {
+			if ci, ok := in.(ssa.CallInstruction); ok && strings.HasSuffix(CalleeName(ci), "Strategy).AddBackend") {
+				return "register"
+			}
+			return ""
+		},
+		Cond:   p.condMentions("url.URL.Scheme", "url.URL.Host"),
+		Expand: func(callee *ssa.Function, site ssa.CallInstruction) bool { return fnPkg(callee) == fnPkg(ab) && callee.Signature.Recv() == nil },
+	}
+	c.traceRule("backend-address-usable", "loadbalancer.(*LoadBalancer).AddBackend", ab, sp,
+		"a backend is registered only after its URL was found to have scheme http/https and a host",
+		func(t *Trace) string {
+			ri := t.Index("register", 0)
+			if ri < 0 {
+				return ""
+			}
+			scheme, host := false, false
+			for _, it := range t.Items[:ri] {
+				if _, isIf := it.Instr.(*ssa.If); !isIf {
+					continue
+				}
+				r := c.condRel(it)
+				if !r.OK {
+					continue
+				}
+				if strings.Contains(r.X, "url.URL.Scheme") && !r.Neq && r.Lo == 0 && r.Hi == 0 && (r.Y == `k:"http"` || r.Y == `k:"https"`) {
+					scheme = true
+				}
+				if strings.Contains(r.X, "url.URL.Host") && r.Neq && (r.Y == `k:""` || r.Y == "") {
+					host = true
+				}
+			}
+			if !scheme || !host {
+				return "a backend is registered without its address having been found to be an http(s) URL with a host: \"localhost:8081\" (no scheme) or \"not a url\" parse without error, are listed as healthy backends and answer every request with 502"
+			}
+			return ""
+		})
 }
